@@ -8,7 +8,7 @@
 (* sequence; any other wrong answer stays a VIOLATION.                            *)
 EXTENDS RankSelect, TLC
 
-KnownIds == {}
+KnownIds == {"C04-KF9"}
 
 Seq0(n) == [j \in 1..n |-> j - 1]
 
@@ -188,6 +188,37 @@ KF8(e, subj) ==
        \/ ~e.all /\ Len(e.r) = Len(e.at) /\ \A j \in 1..Len(e.at) : e.r[j] = KF8Outcome(e.at[j])
     /\ UNCHANGED vec
 
+(* ---------------------------------------------------------------------------------------- *)
+(* C04-KF9  BitVector::bulk_bitwise_op_simd(other, f, s, e) on an AVX2 host combines WHOLE      *)
+(* 64-bit blocks: every bit of the blocks s div 64 .. (e-1) div 64 that both vectors own is     *)
+(* combined (bits of other beyond its length read 0), not only bits s .. e-1; for e = 0 the     *)
+(* subtraction e - 1 wraps and every common block is combined.  The scalar fall-back honours    *)
+(* the range.                                                                                   *)
+KF9Touched(p, s, e, olen) ==
+    LET b == p \div 64 IN
+    /\ b >= s \div 64
+    /\ (e = 0 \/ b <= (e - 1) \div 64)
+    /\ b < (olen + 63) \div 64
+KF9Bits(f, other, s, e) ==
+    [j \in 1..N |-> IF KF9Touched(j - 1, s, e, Len(other))
+                    THEN BitOp(f, Bits[j], IF j <= Len(other) THEN other[j] ELSE 0)
+                    ELSE Bits[j]]
+Unpack(w16, n) == [i \in 1..n |-> (w16[((i - 1) \div 16) + 1] \div (2 ^ ((i - 1) % 16))) % 2]
+StrictBitwise(f, other, s, e) ==
+    [j \in 1..N |-> IF s < j /\ j <= e THEN BitOp(f, Bits[j], other[j]) ELSE Bits[j]]
+(* e.after16: the content read back with get() right after the call (logged for this mutator only) *)
+G9(e, subj) ==
+    /\ subj.route = "hist"
+    /\ e.op = "mut" /\ e.m = "bitwise" /\ e.ok
+    /\ e.s <= e.e /\ e.e <= N /\ e.e <= e.olen
+    /\ Unpack(e.after16, e.len) # StrictBitwise(e.f, Unpack(e.ow16, e.olen), e.s, e.e)
+KF9(e, subj) ==
+    /\ G9(e, subj)
+    /\ e.len = N
+    /\ Unpack(e.after16, e.len) = KF9Bits(e.f, Unpack(e.ow16, e.olen), e.s, e.e)
+    /\ vec' = Mk(KF9Bits(e.f, Unpack(e.ow16, e.olen), e.s, e.e))
+    /\ e.ones = Len(vec'.p1)
+
 (* guard (state predicate) and action of each deviation.  In KF mode a deviation whose   *)
 (* guard holds REPLACES the contract action for that event.                               *)
 DevApplies(id, e, subj) ==
@@ -199,6 +230,7 @@ DevApplies(id, e, subj) ==
     \/ id = "C04-KF6" /\ G6(e, subj)
     \/ id = "C04-KF7" /\ G7(e, subj)
     \/ id = "C04-KF8" /\ G8(e, subj)
+    \/ id = "C04-KF9" /\ G9(e, subj)
 KnownDeviation(id, e, subj) ==
     \/ id = "C04-KF1" /\ KF1(e, subj)
     \/ id = "C04-KF2" /\ KF2(e, subj)
@@ -208,4 +240,5 @@ KnownDeviation(id, e, subj) ==
     \/ id = "C04-KF6" /\ KF6(e, subj)
     \/ id = "C04-KF7" /\ KF7(e, subj)
     \/ id = "C04-KF8" /\ KF8(e, subj)
+    \/ id = "C04-KF9" /\ KF9(e, subj)
 =============================================================================
